@@ -29,5 +29,12 @@ func (h *bcryptHasher) GenerateHash(password string) (string, error) {
 }
 
 func (h *bcryptHasher) CompareHashAndPassword(hashedPassword, password string) error {
+	// bcrypt reads the first 72 bytes only: GenerateFromPassword refuses longer
+	// input, CompareHashAndPassword silently truncates it, which would verify
+	// any extension of a 72 byte password. No stored hash was made from a longer
+	// password, so a longer one cannot be the right one.
+	if len(password) > 72 {
+		return bcrypt.ErrMismatchedHashAndPassword
+	}
 	return bcrypt.CompareHashAndPassword([]byte(hashedPassword), []byte(password))
 }
